@@ -456,6 +456,16 @@ func (a *App) Addr(id int) sdk.Address {
 		return a.ModAddr[govtypes.DAOAccountName]
 	case id == 0:
 		return sdk.Address{}
+	case id > 100 && id <= 100+n:
+		// a look-alike of user id-100's address: every ASCII letter byte in the other case (an address is
+		// 20 raw bytes, not text: this is a different address, whoever compares them as text sees the same one)
+		near := append(sdk.Address{}, a.Keys[id-101].Addr...)
+		for i, b := range near {
+			if (b >= 'A' && b <= 'Z') || (b >= 'a' && b <= 'z') {
+				near[i] = b ^ 0x20
+			}
+		}
+		return near
 	case id == n+5:
 		// OUT: some address outside the named ones, of the usual length: fresh ones and the same ones again
 		h := sha256.Sum256([]byte(fmt.Sprintf("verif-out-%d", a.OutSel%4)))
@@ -475,6 +485,11 @@ func (a *App) ID(addr []byte) int {
 	for i := 1; i <= a.Cfg.N+4; i++ {
 		if bytes.Equal(a.Addr(i), addr) {
 			return i
+		}
+	}
+	for u := 1; u <= a.Cfg.N; u++ { // the look-alike addresses (never equal to the user's own unless it has no letter byte)
+		if bytes.Equal(a.Addr(100+u), addr) {
+			return 100 + u
 		}
 	}
 	return 0
